@@ -394,6 +394,15 @@ def gen_iterate(seed: int) -> str:
     lines.append(f'Memory c: "{t}";')
     steps = rng.randint(1, 4)
     cur = "c.read()"
+    shape = rng.random()
+    if shape < 0.25:
+        # an arithmetic reader of the cell declared before the write statement
+        lines.append(f"Signal seen = c.read() {rng.choice(['*', '+', '-'])} {rng.randint(2, 9)};")
+    elif shape < 0.4:
+        # the read is shared between a reader and the written value
+        lines.append("Signal cur = c.read();")
+        lines.append(f"Signal out = cur * {rng.randint(2, 5)};")
+        cur = "cur"
     for k in range(steps):
         op = rng.choice(["+", "-", "*", "%", "XOR", "AND", "OR", "/"])
         if op in ("%", "/"):
@@ -518,6 +527,29 @@ def gen_functions(seed: int) -> str:
         lines += body
         lines.append("}")
         funcs.append((fn, params))
+    if rng.random() < 0.35:
+        # a parameter spelled like a variable of the calling scope; arguments that swap parameter names
+        lines.append("func sub2(Signal a, Signal b) {")
+        lines.append("    return a - b;")
+        lines.append("}")
+        lines.append("func rsub2(Signal a, Signal b) {")
+        lines.append("    return sub2(b, a);")
+        lines.append("}")
+        a0 = names[0][0]
+        b0 = names[1][0] if len(names) > 1 else f"({a0} * 3)"
+        lines.append(f"Signal a = {a0} + 1;")
+        lines.append(f"Signal b = {b0} + 2;")
+        lines.append("Signal sw1 = rsub2(a, b);")
+        lines.append("Signal sw2 = sub2(b, a);")
+        lines.append("func lamp_at(int x, int y, Signal s) {")
+        lines.append('    Entity e = place("small-lamp", x, y);')
+        lines.append("    e.enable = s > x;")
+        lines.append("    return e;")
+        lines.append("}")
+        lines.append("int y = 6;")
+        lines.append("for x in 0..3 {")
+        lines.append(f"    Entity q = lamp_at(x * 3 - 4, y - 9, {a0});")
+        lines.append("}")
     for k in range(rng.randint(1, 3)):
         fn, params = rng.choice(funcs)
         args = []
@@ -729,16 +761,37 @@ def _statements(src: str) -> list[str]:
     return sts
 
 
+def gen_route(seed: int) -> str:
+    """one long source -> sink connection (needs relay poles); the row is taken from the seed so that two
+    such programs run side by side a few tiles apart"""
+    rng = random.Random(seed)
+    row = (seed % 5) * 2 - 4
+    length = rng.randint(24, 36)
+    x0 = rng.randint(-3, 3)
+    horizontal = (seed // 5) % 2 == 0
+    a = (x0, row) if horizontal else (row, x0)
+    b = (x0 + length, row) if horizontal else (row, x0 + length)
+    return (f'Entity src = place("steel-chest", {a[0]}, {a[1]});\nBundle items = src.output;\n'
+            f'Entity dst = place("small-lamp", {b[0]}, {b[1]});\ndst.enable = items["iron-plate"] > {rng.randint(5, 40)};\n')
+
+
 def gen_independent(seed: int):
     """(P, Q, interleaving of P and Q): P and Q share no name but draw signal types and constants from
     the same small pools, so explicit signal names overlap."""
     rng = random.Random(seed)
     kinds = [gen_scalar, gen_scalar, gen_bundle, gen_gated, gen_latch, gen_entities]
-    gp, gq = rng.choice(kinds), rng.choice(kinds)
-    p = _rename(gp(rng.randint(0, 10 ** 9)), "p_")
-    q = _rename(gq(rng.randint(0, 10 ** 9)), "q_")
-    # move q's placed entities away from p's (same coordinates would be a user error, not a compiler one)
-    q = _re.sub(r'place\("([^"]+)", (-?\d+), (-?\d+)', lambda m: f'place("{m.group(1)}", {int(m.group(2)) + 40}, {int(m.group(3)) + 7}', q)
+    if rng.random() < 0.25:
+        # two long routes running side by side (relay poles of the two computations come close)
+        k = rng.randint(0, 10 ** 6) * 10
+        o1, o2 = rng.sample([0, 1, 2, 3, 4], 2)
+        p = _rename(gen_route(k + o1), "p_")
+        q = _rename(gen_route(k + o2), "q_")
+    else:
+        gp, gq = rng.choice(kinds), rng.choice(kinds)
+        p = _rename(gp(rng.randint(0, 10 ** 9)), "p_")
+        q = _rename(gq(rng.randint(0, 10 ** 9)), "q_")
+        # move q's placed entities away from p's (same coordinates would be a user error, not a compiler one)
+        q = _re.sub(r'place\("([^"]+)", (-?\d+), (-?\d+)', lambda m: f'place("{m.group(1)}", {int(m.group(2)) + 40}, {int(m.group(3)) + 7}', q)
     sp, sq = _statements(p), _statements(q)
     merged = []
     i = j = 0
@@ -959,4 +1012,21 @@ def gen_layout(seed: int, profile: int | None = None) -> str:
     if rng.random() < 0.3:
         px, py = spot(far=True)
         lines.append(f'Entity extra = place("{rng.choice(MULTI_TILE)}", {px}, {py});')
+    return "\n".join(lines) + "\n"
+
+
+def gen_balanced(seed: int) -> str:
+    """balanced-loader pattern (LANGUAGE_SPEC 'Merge Conflict Detection'): every chest takes part in the merge of
+    all chests and in its own comparison merge; the planner must put the two paths on different colours"""
+    rng = random.Random(seed)
+    n = rng.randint(2, 4)
+    lines = []
+    for k in range(n):
+        lines.append(f'Entity c{k} = place("steel-chest", {k * 2}, 0);')
+    lines.append("Bundle total = { " + ", ".join(f"c{k}.output" for k in range(n)) + " };")
+    lines.append(f"Bundle neg_avg = total / -{n};")
+    for k in range(n):
+        lines.append(f"Bundle diff{k} = {{ neg_avg, c{k}.output }};")
+        lines.append(f'Entity ins{k} = place("inserter", {k * 2}, 2);')
+        lines.append(f"ins{k}.enable = {rng.choice(['all', 'any'])}(diff{k}) {rng.choice(['<', '<=', '>'])} {rng.randint(-2, 2)};")
     return "\n".join(lines) + "\n"
